@@ -63,9 +63,9 @@ Definition flags_for (trig : string) : list string :=
 Lemma sections_triggered_table s :
   sections_triggered s = forallb (fun r => negb (existsb (present s) (fst r)) || str_given s (snd r)) trig_table.
 Proof.
-  unfold sections_triggered.
-  change trig_table with (map (fun st => (section_flags (fst st), snd st)) section_triggers).
-  rewrite forallb_map. reflexivity.
+  assert (E : trig_table = map (fun st => (section_flags (fst st), snd st)) section_triggers)
+    by (vm_compute; reflexivity).
+  unfold sections_triggered. rewrite E, forallb_map. reflexivity.
 Qed.
 
 Section Agree.
